@@ -11,7 +11,7 @@
 //! * correspondence: the pages of `SL.Aggs.compositeWalk` (over the merged bucket map of the
 //!   mechanism model, `after_key` sent back through the JSON round trip of the model) vs the
 //!   implementation's pages; `partsLt` vs the order of adjacent keys in the implementation.
-use super::c12::{build_layout, cmp_parts, composite_parts_of_key, field_kinds, gen_doc, gen_layouts, is_i64, matches_query, parse_doc, Doc, F64_FIELDS, KW_FIELDS};
+use super::c12::{build_layout, cmp_parts, composite_parts_of_key, field_kinds, gen_doc, gen_layouts, is_i64, matches_query, parse_doc, Doc, KW_FIELDS};
 use crate::idx;
 use crate::proto::Driver;
 use crate::rng::Rng;
@@ -102,7 +102,7 @@ impl Prop for C30 {
       if rng.chance(1, 2) {
         sources.push(json!({"type": "terms", "name": format!("s{i}"), "field": *rng.pick(&KW_FIELDS)}));
       } else {
-        let f = if rng.chance(1, 10) { *rng.pick(&["i1", "i2"]) } else if negzero { "f1" } else { *rng.pick(&F64_FIELDS) };
+        let f = if negzero { "f1" } else { *rng.pick(&["i1", "i2", "f1", "f2"]) };
         sources.push(json!({"type": "histogram", "name": format!("s{i}"), "field": f, "interval": *rng.pick(&[0.25, 0.5, 1.0, 2.5, 5.0])}));
       }
     }
@@ -186,7 +186,7 @@ impl Prop for C30 {
     s.add("pages", pages.len() as u64);
     s.add("buckets", all.len() as u64);
     if has_i64 {
-      s.count("histogram-source-over-i64 (no buckets: C12 finding, paging holds vacuously)");
+      s.count("histogram-source-over-i64");
     }
     if negzero {
       s.count("negzero-values");
